@@ -89,14 +89,28 @@ static CO_ERR COTPdoEventWrite(struct CO_OBJ_T *obj, struct CO_NODE_T *node, voi
     tmr = &pdo->Node->Tmr;
     if (pdo->EvTmr >= 0) {
         tid = COTmrDelete(tmr, pdo->EvTmr);
+        pdo->EvTmr = -1;
         if (tid < 0) {
             return (CO_ERR_TYPE_WR);
         }
     }
     if (pdo->InTmr >= 0) {
         tid = COTmrDelete(tmr, pdo->InTmr);
+        pdo->InTmr = -1;
         if (tid < 0) {
+            pdo->Flags &= ~CO_TPDO_FLG__I_;
             return (CO_ERR_TYPE_WR);
+        }
+        if ((pdo->Flags & CO_TPDO_FLG__I_) != 0) {
+            /* inhibit time is running: restart it, a pending event is kept */
+            pdo->InTmr = COTmrCreate(tmr,
+                                     pdo->Inhibit,
+                                     0,
+                                     COTPdoTmrInhibit,
+                                     (void*)pdo);
+            if (pdo->InTmr < 0) {
+                pdo->Flags &= ~CO_TPDO_FLG__I_;
+            }
         }
     }
 
